@@ -10,7 +10,9 @@ EXTENDS JsonText, Json, CSV, IOUtils
 CONSTANTS MaxA, Step
 VARIABLES a, b, shape, body, tail
 
-Bodies == << <<>>, <<49>>, <<34, 120, 34>>, <<49, 44>>, <<91, 93, 44, 123, 125>>, <<34, 92, 113, 34>> >>
+Bodies == << <<>>, <<49>>, <<34, 120, 34>>, <<49, 44>>, <<91, 93, 44, 123, 125>>, <<34, 92, 113, 34>>,
+            <<123, 34, 107, 34, 58, 49>>,                 \* {"k":1   (a key pushed when the node stack is exactly full)
+            <<123, 34, 107, 34, 58, 123, 34, 106, 34>> >> \* {"k":{"j"
 Tails  == << <<>>, <<32>>, <<120>>, <<44, 49>> >>
 Shapes == {"arr", "obj", "mix"}
 
@@ -30,9 +32,10 @@ Text == Opener(shape, a) \o Bodies[body] \o Closer(shape, a, b) \o Tails[tail]
 
 Grid == {x \in 0..MaxA : x % Step = 0 \/ x <= 3 \/ x \in {15, 16, 17, 31, 32, 33}}
 
-Init == /\ a \in Grid /\ b \in Grid /\ shape \in Shapes
+\* every opening depth 0..MaxA; closers: none, a few, all but one, all, one too many (b on the grid as well)
+Init == /\ a \in 0..MaxA /\ shape \in Shapes
+        /\ b \in {x \in 0..(a + 1) : x <= 2 \/ x >= a - 1 \/ (x \in Grid /\ a \in Grid)}
         /\ body \in DOMAIN Bodies /\ tail \in DOMAIN Tails
-        /\ (b <= a + 1)
 Next == UNCHANGED <<a, b, shape, body, tail>>
 
 Case == LET x == Text r == ParseText(x) IN
